@@ -24,6 +24,7 @@ func init() {
 func runC10(c *Ctx, r *Report) {
 	p := c.P
 	r.Doc("R-C10.1", "len(list handed on) ≤ max(*Length, k) on every path with Length ≥ 0")
+	r.Doc("R-C10.13", "len(list handed on) ≥ min(max(*Length, k), len(fetched list)) on every path: the trim never cuts more than the limit requires")
 	r.Doc("R-C10.2", "ascending sort with the loader's comparator dominates the trim; the trim returns only suffixes of the sorted list")
 	r.Doc("R-C10.3", "slice helpers with integer parameters are in range for all inputs")
 	r.Doc("control", "engine positive/negative controls analysed on every run")
@@ -93,12 +94,11 @@ func runC10(c *Ctx, r *Report) {
 			paths := lp.pathFacts(sk.ins.Block())
 			nBound, okAll := 0, true
 			var failed string
-			for i, d := range paths {
-				all := append(append([]lfact{}, d...), lp.defs...)
-				if !entails(all, nTerm.scale(-1)) { // n >= 0 not known on this path
-					continue
-				}
-				if infeasibleFacts(all) {
+			for i, d0 := range paths {
+				// the limit is in force on this path: the path looked at its value (the pointer was not nil) and does
+				// not know it to be negative; whatever the test of the sign looks like, the values >= 0 are limits
+				d, limited := limitedVariant(lp, d0, *nTerm)
+				if !limited {
 					continue
 				}
 				nBound++
@@ -123,6 +123,77 @@ func runC10(c *Ctx, r *Report) {
 				r.Hold("R-C10.1", k2, pos, true, fmt.Sprintf("len(result) ≤ max(*Length, %d) proved on all %d paths with Length ≥ 0 (of %d path classes)", ld.k, nBound, len(paths)))
 			default:
 				r.Violate("R-C10.1", k2, pos, fmt.Sprintf("cannot show len(result) ≤ max(*Length, %d) on %s: for some Length (e.g. 0) or some over-delivery of the fetcher the loaded log holds more entries than the limit allows", ld.k, failed))
+			}
+		}
+
+		// R-C10.13: nothing more than necessary is cut — on every path the list handed on is as long as what the
+		// fetcher delivered, or (limit tested non-negative) at least as long as the limit and as the supplied count
+		{
+			var fetched *ssa.Call
+			allInstrs(sf, false, func(ins ssa.Instruction) {
+				call, ok := ins.(*ssa.Call)
+				if !ok {
+					return
+				}
+				cal := call.Call.StaticCallee()
+				if cal == nil || cal.Pkg == nil || cal.Pkg.Pkg.Path() != p.pkgPath("entry") {
+					return
+				}
+				if sl, ok := call.Type().Underlying().(*types.Slice); ok && isNamed(sl.Elem(), p.pkgPath("iface"), "IPFSLogEntry") {
+					fetched = call
+				}
+			})
+			k4 := r.Key("R-C10.13", fn, "keeps-enough", "")
+			if fetched == nil {
+				r.Undecided("R-C10.13", k4, fn.Body.Pos(), "no call into the fetcher that returns the fetched list found in the loader")
+			} else {
+				ft := lp.lenTerm(fetched)
+				for _, sk := range sinks {
+					lt := lp.lenTerm(sk.v)
+					geFetched := ft.add(lt, -1)       // F - len <= 0
+					geLimit := nTerm.add(lt, -1)      // n - len <= 0
+					geK := linConst(ld.k).add(lt, -1) // k - len <= 0
+					okAll, failed := true, ""
+					paths := lp.pathFacts(sk.ins.Block())
+					np := 0
+					for i, d0 := range paths {
+						if infeasibleFacts(append(append([]lfact{}, d0...), lp.defs...)) {
+							continue
+						}
+						np++
+						// the values >= 0 of the limit (when the path looked at it) may cut down to max(limit, k);
+						// everything else (no limit given, a negative one) keeps what was fetched
+						d := d0
+						okPath := true
+						if dl, limited := limitedVariant(lp, d0, *nTerm); limited {
+							d = dl
+							okPath = lp.ProveDNFOnPath(dl, [][]lin{{geFetched}, {geLimit, geK}})
+							if dn, neg := negativeVariant(lp, d0, *nTerm); okPath && neg {
+								d = dn
+								okPath = lp.ProveDNFOnPath(dn, [][]lin{{geFetched}})
+							}
+						} else {
+							okPath = lp.ProveDNFOnPath(d0, [][]lin{{geFetched}})
+						}
+						if okPath {
+							continue
+						}
+						okAll = false
+						var ds []string
+						for _, f := range d {
+							ds = append(ds, f.String())
+						}
+						failed = fmt.Sprintf("path %d [%s]", i, strings.Join(ds, " ∧ "))
+						break
+					}
+					pos := sk.ins.Pos()
+					if !pos.IsValid() {
+						pos = nearestPos(sk.ins)
+					}
+					r.Check(okAll && np > 0, "R-C10.13", k4, pos,
+						fmt.Sprintf("len(result) ≥ min(max(*Length, %d), len(fetched)) proved on all %d path classes", ld.k, np),
+						fmt.Sprintf("cannot show that the loader hands on at least min(max(*Length, %d), what the fetcher delivered) entries (%s): for some limit (1, or one equal to the number of entries) the loaded log holds fewer entries than the limit asks for", ld.k, failed))
+				}
 			}
 		}
 
@@ -831,4 +902,38 @@ func clockTieAdmission(c *Ctx, r *Report, rule string) {
 	if ninst == 0 {
 		r.Hold(rule, r.Key(rule, nil, "no-clock-refusal", ""), token.NoPos, true, "no admission or queueing in the fetcher compares a clock time with a tracked bound (nothing is refused by clock)")
 	}
+}
+
+// mentionsTerm: some fact of the path constrains an atom of t (the path has looked at the value).
+func mentionsTerm(d []lfact, t lin) bool {
+	for _, f := range d {
+		for a := range t.c {
+			if f.l.c[a] != 0 {
+				return true
+			}
+		}
+	}
+	return false
+}
+
+// limitedVariant: the path restricted to the values n >= 0 of the limit, when the path has looked at the limit
+// and those values are possible on it.
+func limitedVariant(lp *LenProver, d []lfact, n lin) ([]lfact, bool) {
+	if !mentionsTerm(d, n) {
+		return nil, false
+	}
+	v := append(append([]lfact{}, d...), lfact{n.scale(-1), "le"})
+	if infeasibleFacts(append(append([]lfact{}, v...), lp.defs...)) {
+		return nil, false
+	}
+	return v, true
+}
+
+// negativeVariant: the path restricted to the values n <= -1.
+func negativeVariant(lp *LenProver, d []lfact, n lin) ([]lfact, bool) {
+	v := append(append([]lfact{}, d...), lfact{n.add(linConst(1), 1), "le"})
+	if infeasibleFacts(append(append([]lfact{}, v...), lp.defs...)) {
+		return nil, false
+	}
+	return v, true
 }
